@@ -1363,6 +1363,45 @@ jobs:
           «1:entrypoint»: /bin/sh
           «2:args»: -c echo
 `)},
+	// keys the parser routes by NAME inside the case-insensitive `with:` mapping (args / entrypoint are not inputs)
+	{Sid: "withkey.popular.entrypoint-args", Mode: "src", Tpl: nmT("ok", nmMain, `
+on: push
+jobs:
+  j1:
+    runs-on: ubuntu-latest
+    steps:
+      - uses: actions/checkout@v4
+        with:
+          «1:entrypoint»: /bin/sh
+          «2:args»: -c echo
+          ref: v
+`)},
+	{Sid: "withkey.action-local.entrypoint-args", Mode: "repo", Tpl: nmT("ok", nmAction, nmActionHead+`
+inputs:
+  other:
+    description: d
+`+nmActionTail, nmMain, `
+on: push
+jobs:
+  j1:
+    runs-on: ubuntu-latest
+    steps:
+      - uses: ./.github/actions/x
+        with:
+          «1:entrypoint»: /bin/sh
+          «2:args»: -c echo
+          other: v
+`)},
+	{Sid: "withkey.popular.args-expr", Mode: "src", Tpl: nmT("diag", nmMain, `
+on: push
+jobs:
+  j1:
+    runs-on: ubuntu-latest
+    steps:
+      - uses: actions/checkout@v4
+        with:
+          «2:$N»: ${{ github.nope }}
+`)},
 	{Sid: "withkey.github-script.script", Mode: "src", Tpl: nmT("diag", nmMain, `
 on: push
 jobs:
